@@ -62,8 +62,9 @@
 //                  removed nodes (lemma_tfu_pre_around: depots have no formation and no passengers), NOT a new precondition
 //   listed_ok      WHOLE-TOUR CASE ONLY (guarded by removes && whole_tour), NEW: the precondition of replace_vehicle_by_dummy,
 //                  C10 "vehicle … listings are sorted and match the stored tours" for the vehicle that goes: its type has an id
-//                  list, sorted, holding the id.  Not derivable from rs_ok (sched_ok speaks about the uninterpreted listing
-//                  sched_vehicles, not about vehicle_ids_grouped_and_sorted)
+//                  list, sorted, holding the id.  Not derivable from rs_ok (sched_ok says that the listing sched_vehicles -- the
+//                  grouped id lists of the network's types, concatenated -- holds exactly the vehicles with a tour, once each; not
+//                  that a vehicle is in the list of ITS type, nor that the lists are sorted)
 //   (no precondition on the counter: D11 is fixed in /repo, the operation refuses when an id is needed and none is left)
 //
 // CLOSURE (the induction step of C10 "after any sequence of schedule modifications" and C09 / C11 "for every reachable schedule /
@@ -79,28 +80,35 @@
 //        transitions_ok (including the magnitude "fewer than 2^17 vehicles in the cycles": no vehicle is added, lemma_total_len_le
 //        counts the vehicles of a cycle structure), usage_exact w.r.t. the result's own network; plus listings_kept (not a conjunct
 //        of rs_ok: every vehicle that stays and satisfied listed_ok still does -- the whole-tour-case precondition of the NEXT call)
-//     proved under the premise A-listing = listing_exact(result) (the listing of the result is duplicate-free and lists exactly the
-//        vehicles with a tour -- these two conjuncts of sched_ok THEMSELVES: sched_vehicles is an uninterpreted function of the
-//        schedule, nothing about the listing of the result follows from any effect clause):  at most 2^17 listed vehicles, and
-//        C09 tours_costs(result) <= result.costs (so_listing, so_costs_cover; sums over duplicate-free listings are order
-//        independent: lemma_pre_costs_perm).  A sufficient condition for A-listing in terms of the OLD listing is proved too:
-//        listing_follows (listing unchanged in the partial case / one occurrence of the id taken out in the whole-tour case)
+//     proved, no extra hypothesis EITHER (the former premise A-listing is DISCHARGED):  listing_exact(result) -- the listing of the
+//        result is duplicate-free and lists exactly the vehicles with a tour, the two conjuncts of sched_ok that say what the listing
+//        is --, at most 2^17 listed vehicles, and C09 tours_costs(result) <= result.costs (so_listing, so_costs_cover; sums over
+//        duplicate-free listings are order independent: lemma_pre_costs_perm).  sched_vehicles is DEFINED now (env/schedule_shim.vs:
+//        listing_of(vehicle types of the network, grouped id lists), the id lists concatenated in type order), so the listing of the
+//        result follows the grouped id lists, whose change is an effect clause: listing_follows -- listing unchanged in the partial
+//        case (same network, same lists: lemma_sched_vehicles_frame) / one occurrence of the id taken out in the whole-tour case
+//        (the list of the provider's type loses it, the other lists are the same: lemma_listing_lose; the type is listed exactly
+//        once: it has a rotation-cycle structure (vehicle_ok) and transitions_ok -- part of rs_ok -- says that the structures'
+//        keys are the listed types and that the type list is duplicate-free) -- is PROVED (lemma_listing_follows_holds), and the
+//        listing of `self` was exact (sched_ok): lemma_listing_follows
 //     magnitude costs <= 2^61 (so_costs_small):  an invariant of the whole-tour case (the costs shrink by the tour's costs) and of
 //        the partial case when the shrunk tour does not cost more than the old one; otherwise NOT an invariant of the operation
 //        (closing the gap may cost more than the removed legs; no triangle inequality) -- there it is the premise
 //        `result.costs <= sched_cost_bound()`
-//     rs_ok(result) as the next modification requires it:  under A-listing and `result.costs <= sched_cost_bound()`
+//     rs_ok(result) as the next modification requires it:  under `result.costs <= sched_cost_bound()` only (no premise in the
+//        whole-tour case)
 //   add_dummy_tour: its only schedule invariant (sorted id list) is re-established (C10.add_dummy_tour.…); Tour::new_dummy,
 //   next_free_idx, the small getters: no schedule invariant among their preconditions.
 //
-// NOT covered: the two listing conjuncts of sched_ok for the RESULT (premise A-listing above; an interpretation of sched_vehicles in
-//   terms of vehicle_ids_grouped_and_sorted would discharge it via listing_follows); costs <= 2^61 in the partial case (premise);
+// NOT covered: costs <= 2^61 in the partial case (premise; the ONLY premise of the closure of rs_ok that is left);
 //   closure of the caller-side preconditions that are not part of rs_ok (tfu_pre's C09 clause for the unserved-passenger pair,
 //   A-counter); listed_ok for every vehicle is preserved (listings_kept) but not established; connectedness of the new dummy tour
 //   (A-path / D9); that the callers establish listed_ok in the whole-tour case; the error messages.
 //   The stub of replace_vehicle_by_dummy carries the contract text of slices/dummy_ops.vs WITHOUT the closure clauses that slice
 //   gained in parallel (a subset of its ensures, same requires: sound; stub_sync reports the difference); they are not needed here.
-//   slices/swaps.vs / swaps_sem.vs stub remove_segment without the closure clauses added here (merely weaker).
+//   slices/swaps.vs / swaps_sem.vs stub remove_segment without the unconditional closure clauses added here (merely weaker: the stub of
+//   swaps_sem carries the former premised forms `.. && listing_exact(result) ==> ..`, which are kept in the contract below -- implied
+//   by the unconditional ones -- until that stub has been synced).
 #![feature(allocator_api)]
 use vstd::prelude::*;
 use std::ops::Add;
@@ -435,8 +443,8 @@ use self::tfu::*;
         // WHOLE-TOUR CASE ONLY: the precondition `listed_ok` of replace_vehicle_by_dummy -- C10 "vehicle … listings are sorted
         // and match the stored tours", as far as that body needs it for the vehicle that goes: its type has an id list
         // (`vehicle_ids_grouped_and_sorted[&vehicle_type_id]`), which is sorted and holds the id (`binary_search(..).unwrap()`).
-        // Not derivable from rs_ok (sched_ok speaks about the uninterpreted listing sched_vehicles, not about the grouped id
-        // lists).  (The other precondition of replace_vehicle_by_dummy, tfu_pre for the nodes of the WHOLE tour -- C09 for the
+        // Not derivable from rs_ok (sched_ok says that the concatenation of the grouped id lists holds exactly the vehicles with a
+        // tour, once each -- not that a vehicle is in the list of ITS type, nor that the lists are sorted).  (The other precondition of replace_vehicle_by_dummy, tfu_pre for the nodes of the WHOLE tour -- C09 for the
         // unserved-passenger pair --, IS derived: lemma_whole_tour_case, from tfu_pre for the removed nodes above.)
         self.removes(segment, vehicle_idx) && self.whole_tour(segment, vehicle_idx) ==> self.listed_ok(vehicle_idx),
     ensures
@@ -529,12 +537,16 @@ use self::tfu::*;
         // modification): every vehicle that stays and was listed in the sorted id list of its type still is
         r is Ok ==> self.listings_kept(&r->Ok_0), // @obl C10.remove_segment.result_satisfies_the_schedule_invariants_again
         // listings (sched_ok: the listing is duplicate-free and matches the stored tours; at most 2^17 vehicles) and C09 (the costs
-        // cover the tours' costs) -- UNDER THE PREMISE A-listing = listing_exact(result), the first two of these conjuncts themselves:
-        // sched_vehicles is an UNINTERPRETED function of the schedule, so nothing about the listing of the result follows from the
-        // effect clauses; the number of vehicles and the cost sum ARE derived from it
+        // cover the tours' costs).  NO PREMISE any more: sched_vehicles is DEFINED (env/schedule_shim.vs: the grouped id lists of the
+        // network's vehicle types, concatenated in type order), so the listing of the result follows the grouped id lists, whose change
+        // is an effect clause -- unchanged in the partial case, one occurrence of the id taken out of the list of the provider's type in
+        // the whole-tour case (listing_follows, proved: lemma_listing_follows_holds) --, hence it is exact again (listing_exact:
+        // duplicate-free, lists exactly the vehicles that have a tour); the number of vehicles and the cost sum are derived from it
+        r is Ok ==> self.listing_follows(segment, vehicle_idx, &r->Ok_0) && listing_exact(&r->Ok_0), // @obl C10.remove_segment.result_satisfies_the_schedule_invariants_again
+        r is Ok ==> r->Ok_0.so_listing() && r->Ok_0.so_costs_cover(), // @obl C10.remove_segment.result_satisfies_the_schedule_invariants_again
+        // (the former premised forms of these clauses, implied by the two lines above; kept because slices/swaps_sem.vs stubs this
+        // function with them -- to be dropped when that stub has been synced)
         r is Ok && listing_exact(&r->Ok_0) ==> r->Ok_0.so_listing() && r->Ok_0.so_costs_cover(), // @obl C10.remove_segment.result_satisfies_the_schedule_invariants_again
-        // (a sufficient condition for A-listing in terms of the old listing: the listing of the result follows the grouped id lists,
-        // whose change is proved: unchanged in the partial case, one occurrence of the id taken out in the whole-tour case)
         r is Ok && self.listing_follows(segment, vehicle_idx, &r->Ok_0) ==> listing_exact(&r->Ok_0), // @obl C10.remove_segment.result_satisfies_the_schedule_invariants_again
         // magnitude costs <= 2^61: an invariant of the whole-tour case only (the costs shrink by the tour's costs); in the partial
         // case the shrunk tour may cost more than the old one (no triangle inequality is assumed): there the conjunct is the
@@ -542,7 +554,10 @@ use self::tfu::*;
         // (a sufficient condition in the partial case: the shrunk tour does not cost more than the old one)
         r is Ok && (self.whole_tour(segment, vehicle_idx) || r->Ok_0.tours@[vehicle_idx].costs <= self.tours@[vehicle_idx].costs)
             ==> r->Ok_0.costs <= self.costs && r->Ok_0.so_costs_small(), // @obl C10.remove_segment.result_satisfies_the_schedule_invariants_again
-        // the bundle as the next modification requires it
+        // the bundle as the next modification requires it (the costs premise: see above; in the whole-tour case it holds)
+        r is Ok && r->Ok_0.costs <= sched_cost_bound() ==> r->Ok_0.rs_ok(), // @obl C10.remove_segment.result_satisfies_the_schedule_invariants_again
+        r is Ok && self.whole_tour(segment, vehicle_idx) ==> r->Ok_0.rs_ok(), // @obl C10.remove_segment.result_satisfies_the_schedule_invariants_again
+        // (former premised form, implied by the line above; kept for the stub of slices/swaps_sem.vs)
         r is Ok && listing_exact(&r->Ok_0) && r->Ok_0.costs <= sched_cost_bound() ==> r->Ok_0.rs_ok(), // @obl C10.remove_segment.result_satisfies_the_schedule_invariants_again
 //@first
         hide(Schedule::rs_ok);
